@@ -30,12 +30,12 @@ ASSUMPTIONS = [
 
 # "other": the contract kernel of the property is thin (or syntactic) and most of its surface is covered by labelled bounded
 # stand-ins; "proof": the kernel is the property's core and every obligation is discharged deductively
-LEVELS = {"C17": "other", "C09": "other", "C10": "other", "C11": "other", "C16": "other", "C13": "other", "C15": "other"}
+LEVELS = {"C17": "other", "C09": "other", "C10": "other", "C11": "other", "C12": "other", "C16": "other", "C13": "other", "C15": "other"}
 _THIN = ("the contract kernel listed under functions_under_contract is a small part of this property's surface: its obligations are all discharged "
          "(back ends listed), and the rest of the property is explored by the bounded stand-ins listed under `bounded` (evaluations / distinct_nontrivial "
          "count those cases only; they are never added to obligations / discharged)")
 EXPLAIN = {
-    "C09": _THIN, "C10": _THIN, "C11": _THIN, "C13": _THIN, "C15": _THIN, "C16": _THIN,
+    "C09": _THIN, "C10": _THIN, "C11": _THIN, "C12": _THIN, "C13": _THIN, "C15": _THIN, "C16": _THIN,
     "C17": "rng-frame obligations (one per seeded function, discharged syntactically and modularly by rngcheck) + native double-run stand-in; determinism itself rests on the assumed contracts of the random/numpy/networkx/scipy generators",
 }
 
@@ -270,6 +270,16 @@ def do_replay(path):
     src = open(path).read()
     exec(compile(src.split("\nif __name__")[0], path, "exec"), ns)
     doc = json.loads(ns["REPLAY"])
+    if "function" not in doc or doc["function"] not in REGISTRY:
+        # replay of a syntactic / Lean / bounded-oracle finding: the file itself re-runs the native oracle when it has one
+        if "\nif __name__" in src:
+            import subprocess
+            rc = subprocess.call(["python3", os.path.abspath(path)])
+            print("native oracle re-run: %s" % ("violation reproduces" if rc else "no violation on the current tree"))
+            return 1 if rc else 0
+        print("replay file names a failed obligation without a concrete input (no-failing-input-found): %s" % doc.get("obligation"))
+        print(doc.get("reason") or "")
+        return 0
     spec = REGISTRY[doc["function"]]
     if not doc.get("case"):
         print("replay file carries no concrete input (no-failing-input-found): obligation %s" % doc["obligation"])
@@ -286,6 +296,13 @@ def run_property(pid, tier="quick", seed=0, extra=None):
     assumptions=[...]) contributed by a non-SMT back end (framecheck, Lean, bounded index tables)."""
     t0 = time.time()
     _load()
+    # replay files of earlier runs do not describe this run
+    import glob
+    for old in glob.glob(os.path.join(ROOT, "out", pid, "replay_*.py")):
+        try:
+            os.remove(old)
+        except OSError:
+            pass
     timeout_ms = 10000 if tier == "quick" else 60000
     kq = 4
     tasks = kernel(pid)
